@@ -460,6 +460,12 @@ def model_specs(draw, profile=None):
         sizes = sorted(set(draw(st.lists(st.integers(1, len(body)), min_size=1, max_size=3))), reverse=True)
         for i, sz in enumerate(sizes):
             characs.append({"name": "x%d" % i, "inc": list(order[:sz]), "den": None, "db": False})
+        if len(characs) >= 2 and g.coin(0.4):
+            # written on the sheet BY REFERENCE: a larger characteristic lists the next smaller one among its components ("inc" stays the
+            # flattened list of compartments, which is what it means; "inc_ref" is what the Components cell says)
+            for a_, b_ in zip(characs[:-1], characs[1:]):
+                a_["inc_ref"] = [b_["name"]] + [c_ for c_ in a_["inc"] if c_ not in b_["inc"]]
+            g.labels.add("charac:includes-characteristic")
         if g.coin(0.5) and len(characs) >= 2:
             characs.append({"name": "xf", "inc": list(characs[-1]["inc"][:1]), "den": characs[0]["name"], "db": False})
             g.labels.add("charac:denominator")
@@ -618,8 +624,15 @@ def model_specs(draw, profile=None):
         for name, d in pars.items():
             if d["db"] and not d["timed"] and name in data["q"] and g.coin(p.get("p_all_row", 0.15)):
                 first = pops[0]
+                own = []
+                if g.coin(0.4):
+                    # the "All" row is only a fallback: these populations ALSO have a row of their own (with other numbers), which wins
+                    own = g.subset(pops[1:], min_size=1)
+                    data.setdefault("all_rows_own", {})[name] = own
+                    g.labels.add("data:all-row-with-own-rows")
                 for pop in pops[1:]:
-                    data["q"][name][pop] = json.loads(json.dumps(data["q"][name][first]))
+                    if pop not in own:
+                        data["q"][name][pop] = json.loads(json.dumps(data["q"][name][first]))
                 data["all_rows"].append(name)
                 g.labels.add("data:all-row")
     # every plain junction gets at least one strictly positive constant proportion (C01 domain)
@@ -635,6 +648,7 @@ def model_specs(draw, profile=None):
                 data["yf"].pop(k, None)
                 if k in data["all_rows"]:
                     data["all_rows"].remove(k)
+                    data.get("all_rows_own", {}).pop(k, None)
     # transfers
     if n_pops >= 2 and g.coin(p["p_transfer"]):
         n_tr = draw(st.integers(1, 2))
